@@ -25,7 +25,10 @@ CHECKS = {
          "same serialized blocks of a generated history (transfers, votes/candidates across epochs, policy/roles, deploy/update/destroy, "
          "storage-heavy and faulting invocations, notary deposits); after every step a 13-component digest of the replica is recorded and "
          "TLC (NodeTrace) checks it equals the reference node's digest at that height, that flushes change no answer and that a clean "
-         "stop/restart is transparent. Sampled at code level (histories x schedules), exhaustive at model level.",
+         "stop/restart is transparent. Sampled at code level (histories x schedules), exhaustive at model level. Extension (spec/transferlog, "
+         "harness/c01transfers): the RPC-visible token transfer log (batches, newest-first iteration with timestamp bounds, last-updated, "
+         "transfer GC) is specified (TransferLog/TransferLogImpl, batch size 3, four named deviations caught) and the iteration answers of real "
+         "replicas with different backends/flush/restart schedules are judged by TLC against the list rebuilt from the stored application logs.",
          "DESIGN.md section 4 C01",
          "Trusted: TLC; the digest (state root, full storage dump of native ids and deployed ids 1..24, AERs of the top block, committee/"
          "validators/candidates, policy values, native+deployed contract states, roles) as the notion of 'ledger state'; the history generator "
@@ -138,7 +141,10 @@ CHECKS = {
          "MarkersFollowData; six named deviations are each caught. TLC-generated schedules run on a real core.Blockchain behind a recording store; EVERY prefix "
          "of the recorded batch sequence (plus the other order of concurrently issued batches, plus second crashes during a resume) is reopened with "
          "core.NewBlockchain and compared with a never-restarted reference: digest at the recovered height, trie-vs-flat, acceptance of all remaining blocks with a "
-         "digest per block, raw database dump against the uninterrupted reset/jump. Recorded batches and outcomes are judged by TLC (NodeDiskTrace).",
+         "digest per block, raw database dump against the uninterrupted reset/jump. Recorded batches and outcomes are judged by TLC (NodeDiskTrace). "
+         "Extension (spec/headerhashes, harness/c02hdrhashes): header-hash paging (pages of 2000, previous/latest page, LRU, GC of pages, trusted-header "
+         "start, a trusted header configured on an existing database, Reset across a page boundary) modelled with page size 3, seven named deviations "
+         "caught, and chains of up to 6140 headers on the real node with EVERY batch boundary reopened and all indexes swept.",
          "DESIGN.md section 4 C02",
          "Crash points are exactly the PutChangeSet/SeekGC commits (backend atomicity assumed, no torn batches). Images are replayed into a MemoryStore and "
          "checked against the real backend at the end of each run; BoltDB worlds also reopen file copies taken after each commit, LevelDB worlds reopen a fresh "
